@@ -202,6 +202,19 @@ def task(p, cse, ekf, tier, seed):
             for j in range(n):
                 oblige("defaults", l, f"c0_{i}_{j}", z3.RealVal(1 if i == j else 0), ("one",) if i == j else ("zero",), f"default Covariance[{ss[i]},{ss[j]}]=={int(i == j)}")
             oblige("defaults", l, f"c0diag_{ss[i]}", z3.RealVal(1), ("one",), f"default Covariance.{ss[i]}()==1 (unit variance)")
+        # the same scenario in the plain-double build: default-initialised Options objects over dirty memory read back as zeros
+        try:
+            cf.compile_concrete()
+            e0 = {nm: 0.5 for nm in env}
+            _add_cov_defaults(p, e0)
+            douts, _, _ = cf.run_concrete("defaults", e0)
+            badd = sorted(nm for nm, v in douts.items() if nm.startswith(("s2_", "r0_")) and not (v == 0.0))
+            part.record(Q("sat" if badd else "unsat", None, 0.0, ""), f"{key_base}/defaults: default-initialised Options objects (over 0xFF-filled memory) construct all-zero State / readings (plain-double build)")
+            if badd:
+                path = write_replay(PID, {"key": key_base + "/defaults-options", "info": dict(info, scenario="defaults", output=badd[0], what=["zero"]), "inputs": e0, "bad": {nm: repr(douts[nm]) for nm in badd[:6]}})
+                part.violation(key_base + "/defaults-options", f"a default-initialised Options object does not default its members to zero: {[(nm, douts[nm]) for nm in badd[:4]]}", path)
+        except build.BuildError as ex:
+            part.d["inconclusive"].append(f"{key_base}/defaults (plain-double build): {str(ex)[:120]}")
         reach(part, key_base + "/assumptions-sat", assumes)
     finally:
         cf.__exit__(None, None, None)
